@@ -64,6 +64,25 @@ type c19Case struct {
 	// CorePanics (server chains): the operation handler, innermost, panics for every message; the executor turns that
 	// into a failed item, which is the result the stages around it receive - they go on as their programs say
 	CorePanics bool `json:"handler_panics,omitempty"`
+	// Library (client chain): the library's own middlewares sit in the chain as well, each registered before the stage
+	// with the given index (len(stages) = innermost): debug (ONE DebugMiddleware value, wherever it is registered - a
+	// caller may well log both what it sends and what finally goes out), timeout (TimeoutMiddleware(1 min)),
+	// correlation (CorrelationValueMiddleware). They pass on what they receive and hand back what they get: the stages
+	// around them observe the same trace as without them.
+	Library []libStage `json:"library_middlewares,omitempty"`
+}
+type libStage struct {
+	Before int    `json:"registered_before_stage"`
+	Kind   string `json:"kind"` // debug | timeout | correlation
+}
+
+// lockedDiscard is what the debug middleware writes to (shared by concurrent requests).
+type lockedDiscard struct{ mu sync.Mutex }
+
+func (w *lockedDiscard) Write(p []byte) (int, error) {
+	w.mu.Lock()
+	defer w.mu.Unlock()
+	return len(p), nil
 }
 
 // registerStages hands the stages to an executor: one Use call per stage, or (SharedList) the first ones through a
@@ -501,6 +520,29 @@ func runClient(c c19Case) (traces [][]string, finals []modelRes, coreLogs [][]st
 			}))
 		})
 	}
+	if len(c.Library) > 0 {
+		debug := kmipclient.DebugMiddleware(&lockedDiscard{}, nil)
+		var all []kmipclient.Middleware
+		for i := 0; i <= len(mws); i++ {
+			for _, l := range c.Library {
+				if l.Before != i {
+					continue
+				}
+				switch l.Kind {
+				case "debug":
+					all = append(all, debug)
+				case "timeout":
+					all = append(all, kmipclient.TimeoutMiddleware(time.Minute))
+				default:
+					all = append(all, kmipclient.CorrelationValueMiddleware(func() string { return "verif" }))
+				}
+			}
+			if i < len(mws) {
+				all = append(all, mws[i])
+			}
+		}
+		mws = all
+	}
 	mwOpts := []kmipclient.Option{kmipclient.WithMiddlewares(mws...)}
 	var shared []kmipclient.Middleware
 	if k := min(c.SharedList, len(mws)); k > 0 {
@@ -568,6 +610,10 @@ func runClient(c c19Case) (traces [][]string, finals []modelRes, coreLogs [][]st
 }
 
 func c19Run(c c19Case) (sig string, err error) {
+	if len(c.Library) > 0 {
+		// a stage of the library that waits for itself would hang the case for ever
+		defer evid.DeadlockWatch("C19", "TestC19Chains", c, "kmip-go/kmipclient")()
+	}
 	type outcome struct {
 		events []string
 		final  modelRes
@@ -694,7 +740,7 @@ func c19NonTrivial(c c19Case) bool {
 func TestC19Chains(t *testing.T) {
 	const name = "TestC19Chains"
 	rec := evid.New("C19", name, "chains of 0..4 stages for the client Roundtrip chain, the server message chain and the server batch-item chain; each stage is a generated program: call the continuation 0..3 times, "+
-		"per call pass on the received or a substituted message and the received, a derived or a detached (not derived from the received one) context, on the client chain also an already cancelled one (the inner stages run all the same; only what the transport answers under it is left open), return the last/first result, a substituted result, an error, or (message chains) a response together with an error; 1..4 concurrent requests share the chain; "+
+		"per call pass on the received or a substituted message and the received, a derived or a detached (not derived from the received one) context, on the client chain also an already cancelled one (the inner stages run all the same; only what the transport answers under it is left open), return the last/first result, a substituted result, an error, or (message chains) a response together with an error; 1..4 concurrent requests share the chain; on the client chain 0..3 of the library's own middlewares (one DebugMiddleware value possibly registered several times, TimeoutMiddleware, CorrelationValueMiddleware) sit between the stages and must be transparent; "+
 		"oracle: a recursive interpreter of the same programs predicts the exact event trace (stage entries with message and context, core executions, results seen) and the caller's result; every result a stage got back is read again when the stage ends and must be unchanged; "+
 		"non-trivial = a non-last stage calls the continuation >= 2 times, or a message is substituted; distinct by case").Attach(t)
 	if rp := evid.LoadReplay(name); rp != nil {
@@ -730,6 +776,11 @@ func TestC19Chains(t *testing.T) {
 		if n > 0 && rapid.IntRange(0, 2).Draw(rt, "sharedlist") == 0 {
 			c.SharedList = rapid.IntRange(1, n).Draw(rt, "sharedlen")
 		}
+		if c.Chain == "client" {
+			for k := rapid.SampledFrom([]int{0, 0, 1, 2, 3}).Draw(rt, "library-middlewares"); k > 0; k-- {
+				c.Library = append(c.Library, libStage{Before: rapid.IntRange(0, n).Draw(rt, "before"), Kind: rapid.SampledFrom([]string{"debug", "debug", "timeout", "correlation"}).Draw(rt, "libkind")})
+			}
+		}
 		for i := 0; i < n; i++ {
 			var p stageProg
 			k := rapid.SampledFrom([]int{1, 1, 1, 0, 2, 2, 3}).Draw(rt, "calls")
@@ -747,6 +798,9 @@ func TestC19Chains(t *testing.T) {
 		rec.Case(c19NonTrivial(c), key, "chain="+c.Chain, fmt.Sprintf("stages=%d", n))
 		if c19NonTrivial(c) && rec.WantSample() {
 			rec.Sample(c)
+		}
+		if len(c.Library) > 0 {
+			evid.Journal("C19", name, c)
 		}
 		if sig, err := c19Run(c); err != nil {
 			rec.Fail(rt, name, sig, err, c)
